@@ -635,6 +635,8 @@ def isinstance_one(interp, v, t, node):
             return isinstance(v, (sym.SComplex, complex))
         if name == 'ndarray':
             return False          # numpy arrays are outside the modelled value domain
+        if name == 'float64':     # numpy scalars are outside the modelled cell values (A-NUMPY)
+            return False
         if name == 'Number':      # numbers.Number: bool, int, float, complex (Decimal / Fraction are not cell values)
             return isinstance(v, (SInt, SBool, SFloat, int, float, sym.SComplex, complex))
         if name == 'Iterable':
@@ -1142,6 +1144,24 @@ def s_strip(interp, s, args, kwargs, node):
     raise Unsupported('str.strip symbolic', node)
 
 
+def s_lstrip(interp, s, args, kwargs, node):
+    if not sym.any_sym(s, *args):
+        return s.lstrip(*args)
+    if args and isinstance(args[0], str) and args[0]:
+        chars = args[0]
+        trust(interp, 'A-LSTRIP: s.lstrip(chars) is the suffix of s left after removing its longest prefix made of chars')
+        st = str_term(s)
+        key = ''.join(f'{ord(c):02x}' for c in chars)
+        r = uf('lstrip_' + key, S, S)(st)
+        lead = uf('lstrip_lead_' + key, S, S)(st)
+        cs = charset_re(chars)
+        interp.ex.add_axiom(z3.And(
+            st == z3.Concat(lead, r), z3.InRe(lead, z3.Star(cs)),
+            z3.Implies(z3.Length(r) > 0, z3.Not(z3.InRe(z3.SubString(r, 0, 1), cs)))))
+        return mk_str(r)
+    raise Unsupported('str.lstrip symbolic', node)
+
+
 def s_join(interp, s, args, kwargs, node):
     items = interp.iterate(args[0], node)
     for x in items:
@@ -1211,7 +1231,7 @@ def s_count(interp, s, args, kwargs, node):
 
 STR_METHODS = {'upper': s_upper, 'lower': s_lower, 'startswith': s_startswith,
                'endswith': s_endswith, 'replace': s_replace, 'find': s_find,
-               'zfill': s_zfill, 'strip': s_strip, 'join': s_join, 'split': s_split,
+               'zfill': s_zfill, 'strip': s_strip, 'lstrip': s_lstrip, 'join': s_join, 'split': s_split,
                'format': s_format, 'isdigit': s_isdigit, 'count': s_count}
 
 
@@ -1405,6 +1425,7 @@ def make_externals(world):
     ext['collections.abc.Iterable'] = Builtin('Iterable', None)
     ext['collections.abc'] = ExternalModule('collections.abc')
     ext['numbers.Number'] = Builtin('Number', None)
+    ext['numpy.float64'] = Builtin('float64', None)
     ext['numpy.ndarray'] = Builtin('ndarray', None)
     ext['openpyxl.formula.tokenizer.Tokenizer'] = TokenizerConsts()
     ext['operator.eq'] = Builtin('operator.eq', lambda i, a, k, n: i.compare('eq', a[0], a[1], n))
